@@ -97,7 +97,10 @@ def build(shape, route, M):
     if route == "kwargs":
         return cls(points=s, transform=tf)
     if route == "args":
-        return cls(*pts) * tf
+        # the points as tuples, as complex numbers, as Point objects or as lists (all are points to the library)
+        form = (len(pts) + int(M[0] * 7 + M[4])) % 4
+        conv = [lambda q: q, lambda q: complex(q[0], q[1]), lambda q: svg.Point(q[0], q[1]), lambda q: [q[0], q[1]]][form]
+        return cls(*[conv(q) for q in pts]) * tf
     return cls({"points": s}) * tf
 
 
